@@ -104,29 +104,143 @@ func loopCount(fn *ssa.Function, i ssa.Instruction, field string) string {
 	return "?"
 }
 
-func (c *Ctx) writerLayout(fn *ssa.Function, depth int) ([]layoutEvent, []string) {
-	var evs []layoutEvent
-	var bad []string
+func (c *Ctx) writerLayout(fn *ssa.Function, depth int) (evs []layoutEvent, bad []string) {
 	c.Saw(core.FnName(fn))
+	// where the bytes may go: the function's io.Writer parameter, or a local bytes.Buffer whose whole content is
+	// handed to that parameter afterwards (buf.WriteTo(w) / w.Write(buf.Bytes()))
+	var wparam *ssa.Parameter
+	for _, p := range fn.Params {
+		if it, isIface := p.Type().Underlying().(*types.Interface); isIface && it.NumMethods() > 0 {
+			for i := 0; i < it.NumMethods(); i++ {
+				if it.Method(i).Name() == "Write" {
+					wparam = p
+				}
+			}
+		}
+	}
+	unwrap := func(v ssa.Value) ssa.Value {
+		for d := 0; d < 4; d++ {
+			switch x := v.(type) {
+			case *ssa.MakeInterface:
+				v = x.X
+			case *ssa.ChangeInterface:
+				v = x.X
+			default:
+				return v
+			}
+		}
+		return v
+	}
+	flushOf := map[ssa.Value]*ssa.Call{} // local buffer -> the call that hands it to the writer parameter
+	isLocalBuf := func(v ssa.Value) bool {
+		if !strings.HasSuffix(v.Type().String(), "*bytes.Buffer") {
+			return false
+		}
+		switch x := v.(type) {
+		case *ssa.Alloc:
+			return true
+		case *ssa.Call:
+			return core.IsFunc(core.Callee(x.Common()), "bytes", "NewBuffer")
+		}
+		return false
+	}
+	for _, ci := range core.CallsIn(fn) {
+		call, ok := ci.(*ssa.Call)
+		if !ok || wparam == nil {
+			continue
+		}
+		cc := call.Common()
+		f := core.Callee(cc)
+		switch {
+		case core.IsMethod(f, "bytes", "Buffer", "WriteTo") && len(cc.Args) == 2 && unwrap(cc.Args[1]) == ssa.Value(wparam) && isLocalBuf(cc.Args[0]):
+			flushOf[cc.Args[0]] = call
+		case cc.IsInvoke() && cc.Method.Name() == "Write" && cc.Value == ssa.Value(wparam) && len(cc.Args) == 1:
+			if bc, isCall := cc.Args[0].(*ssa.Call); isCall && core.IsMethod(core.Callee(bc.Common()), "bytes", "Buffer", "Bytes") && isLocalBuf(bc.Call.Args[0]) {
+				flushOf[bc.Call.Args[0]] = call
+			}
+		}
+	}
+	// sink: "" (not a place the proof's bytes may go), "param", or "buffer"
+	var buffered []*ssa.Call
+	sink := func(v ssa.Value, at *ssa.Call) string {
+		v = unwrap(v)
+		if wparam != nil && v == ssa.Value(wparam) {
+			return "param"
+		}
+		if _, ok := flushOf[v]; ok {
+			buffered = append(buffered, at)
+			return "buffer"
+		}
+		return ""
+	}
+	defer func() {
+		// buffered fields reach the writer only through the flush: it comes after every one of them and lies on
+		// every way to a success return
+		seen := map[*ssa.Call]bool{}
+		for _, fl := range flushOf {
+			if seen[fl] {
+				continue
+			}
+			seen[fl] = true
+			for _, b := range buffered {
+				if !core.Precedes(fn, b, fl) {
+					bad = append(bad, "a field is put into the local buffer at "+c.P.Pos(b.Pos())+" but the buffer is handed to the writer at "+c.P.Pos(fl.Pos())+", which does not come after it on every path")
+				}
+			}
+			cut := core.NewCuts()
+			cut.AddInstr(fl)
+			for _, r := range successReturns(fn) {
+				if len(buffered) > 0 && !core.MustPass(fn, cut, r) {
+					bad = append(bad, "a success return at "+c.P.Pos(r.Pos())+" is reachable without handing the local buffer to the writer")
+				}
+			}
+		}
+	}()
 	for _, ci := range core.CallsIn(fn) {
 		call, ok := ci.(*ssa.Call)
 		if !ok {
 			continue
 		}
 		f := core.Callee(call.Common())
-		// raw form: w.Write(buf[:]) on the io.Writer, buf a local holding an encoder result
+		// raw form: w.Write(buf[:]) on the io.Writer (or on a local buffer), buf a local holding an encoder result
 		rawWrite := false
+		var dest ssa.Value
 		if cc := call.Common(); cc.IsInvoke() && cc.Method.Name() == "Write" && len(cc.Args) == 1 {
 			if _, isParam := cc.Value.(*ssa.Parameter); isParam {
 				rawWrite = true
+				dest = cc.Value
+			}
+		} else if core.IsMethod(f, "bytes", "Buffer", "Write") && len(cc.Args) == 2 {
+			if _, isFlushed := flushOf[cc.Args[0]]; isFlushed {
+				rawWrite = true
+				dest = cc.Args[0]
+			}
+		}
+		if rawWrite && flushOf != nil {
+			// the flush itself is not a field
+			isFlush := false
+			for _, fl := range flushOf {
+				if fl == call {
+					isFlush = true
+				}
+			}
+			if isFlush {
+				continue
 			}
 		}
 		switch {
 		case core.IsFunc(f, "encoding/binary", "Write") || rawWrite:
+			if !rawWrite {
+				dest = call.Call.Args[0]
+			}
+			if sink(dest, call) == "" {
+				bad = append(bad, "a field is written to something other than the function's writer (or a local buffer handed to it) at "+c.P.Pos(call.Pos()))
+				continue
+			}
 			// data argument: interface made from the result of an encoder call
 			var data ssa.Value
 			if rawWrite {
-				data = call.Call.Args[0]
+				data = call.Call.Args[len(call.Call.Args)-1]
 				if sl, isSl := data.(*ssa.Slice); isSl && wholeSlice(sl) {
 					if a, isAlloc := sl.X.(*ssa.Alloc); isAlloc {
 						if sts := allStoresTo(fn, a); len(sts) == 1 {
@@ -170,6 +284,9 @@ func (c *Ctx) writerLayout(fn *ssa.Function, depth int) ([]layoutEvent, []string
 		case core.IsMethod(f, "/ipa", "IPAProof", "Write") && depth < 3:
 			sub, sb := c.writerLayout(f, depth+1)
 			bad = append(bad, sb...)
+			if len(call.Call.Args) < 2 || sink(call.Call.Args[1], call) == "" {
+				bad = append(bad, "IPAProof.Write is given something other than the function's writer (or a local buffer handed to it) at "+c.P.Pos(call.Pos()))
+			}
 			if fieldOfPath(core.PathOf(call.Call.Args[0])) != "IPA" {
 				bad = append(bad, "IPAProof.Write not applied to the IPA field")
 			}
